@@ -316,17 +316,12 @@ def run(chk: Check):
     def lap(msg):
         if os.environ.get("C04_TIMING"):
             sys.stderr.write("[c04 %.0fs] %s\n" % (time.time() - t0, msg))
-    dev_skip = bool(os.environ.get("C04_DEV_SKIP_COQ_BUILD"))   # development aid only (mutation experiments
-    # while the shared build lock is contended): uses the .vo files as they are; the evidence says so
-    if not dev_skip:
-        chk.proofs(timeout=2400)
-    else:
-        chk.notes.append("DEVELOPMENT RUN: proofs not rebuilt (C04_DEV_SKIP_COQ_BUILD)")
+    chk.proofs(timeout=2400)
     T = chk.thorough
     rng = chk.rng
     corr_broken = []
     notes = chk.notes
-    ok, log = (True, "") if dev_skip else coq_make(["theories/C04/CasesC04.vo", "theories/C04/KernelDefs.vo"])
+    ok, log = coq_make(["theories/C04/CasesC04.vo", "theories/C04/KernelDefs.vo"])
     if not ok:
         corr_broken.append("the model files C04/CasesC04.v, C04/KernelDefs.v do not compile: " + log[-500:])
         chk.finish(rule="-", explanation="model does not compile", correspondence_broken=corr_broken)
